@@ -768,7 +768,7 @@ def check_C07(v, tier, seed):
 
 def check_C09(v, tier, seed):
     args = ["reopen", "--seed", str(seed)] + (["--thorough"] if tier == "thorough" else [])
-    runs = [Run("C09-reopen", args)]
+    runs = [Run("C09-reopen", args), Run("C09-reopen-unshared", ["reopen-unshared"])]
     if tier == "thorough":
         runs.append(Run("C09-reopen-enosys", args + ["--no-openat2"]))
     concrete = set()
@@ -776,6 +776,15 @@ def check_C09(v, tier, seed):
     for r in runs:
         for c in r.cases:
             msg = None
+            for t in c.extra.get("unshared", []):
+                if t and t[0] == "OTHER":
+                    msg = "reopen from a thread with its own descriptor table: " + " ".join(t[1:])
+            if msg:
+                facts = case_facts(c)
+                facts.update({"kind": "oracle", "oracle": msg})
+                v.fail(facts, case_replay(c, msg))
+                concrete.add((r.name, c.id))
+                continue
             flags = int(c.op[2])
             creation = flags & (0o100 | 0o200) or (flags & 0o20200000) == 0o20200000
             h = c.handle or {}
